@@ -208,6 +208,7 @@ class TxModel:
         self._store_digest = (None, None)
         self._reads_cache: Dict[int, bool] = {}
         self.history: Dict[Any, list] = {}  # op -> python-level DB interaction history (for state hashing)
+        self.db_tasks: set = set()          # asyncio tasks suspended at a database yield point / lock wait (see TxLoop)
 
     # -- sessions ------------------------------------------------------------------------------------
     def attach(self, s):
@@ -596,12 +597,15 @@ class TxModel:
                 if st == 'done':
                     break
                 if st == 'yield':
-                    await asyncio.sleep(0)
+                    await self.pause()
                 elif st == 'blocked':
                     ev = s.tx_wake = asyncio.Event()
+                    task = asyncio.current_task()
+                    self.db_tasks.add(task)
                     try:
                         await ev.wait()
                     finally:
+                        self.db_tasks.discard(task)
                         s.tx_wake = None
                 else:
                     raise HarnessError(f'worker in state {st!r} handed the baton back')
@@ -621,6 +625,15 @@ class TxModel:
                 raise HarnessError(f'{type(exc).__name__} escaped the statement retry loop: {exc!r} during {what[:80]!r}')
             raise exc
         return res
+
+    async def pause(self):
+        """A database yield point on the asyncio side: the explorer decides which paused session steps next."""
+        task = asyncio.current_task()
+        self.db_tasks.add(task)
+        try:
+            await asyncio.sleep(0)
+        finally:
+            self.db_tasks.discard(task)
 
     def shutdown(self):
         """End of an execution: no statement may still be in flight (drive() aborts its worker when its task is
@@ -715,7 +728,7 @@ class TxConn:
         s = self.session
         if s.held or s.undo:
             self.tm._ev(s, 'at', 'COMMIT (driver)')
-            await asyncio.sleep(0)
+            await self.tm.pause()
         s.commit()
         self.tm.note(self.op, 'commit')
         self.tm.wake_pending()
@@ -724,7 +737,7 @@ class TxConn:
         s = self.session
         if s.held or s.undo:
             self.tm._ev(s, 'at', 'ROLLBACK (driver)')
-            await asyncio.sleep(0)
+            await self.tm.pause()
         s.rollback()
         self.tm.note(self.op, 'rollback')
         self.tm.wake_pending()
@@ -761,3 +774,67 @@ class TxBackend:
 
     def connect(self):
         return TxConn(self)
+
+
+# ---------------------------------------------------------------------------------------------------------
+# virtual loop that only branches on database steps
+# ---------------------------------------------------------------------------------------------------------
+
+def make_loop(chooser, tm: TxModel, t0: float):
+    """A VLoop whose choice points are exactly: which session paused at a database yield point (or woken from a lock
+    wait) steps next, or does the earliest timer (a retry back-off) fire first.  Every other runnable callback
+    (task wake-ups between database calls, done-callbacks, connection release) is python-local: it is run at once in
+    FIFO order without a choice (it neither reads nor writes the database nor any lock)."""
+    import heapq
+
+    from vf import vloop
+
+    class TxLoop(vloop.VLoop):
+        def _task_of(self, h):
+            return getattr(getattr(h, '_callback', None), '__self__', None)
+
+        def step(self):
+            self._due_timers_to_ready()
+            ready = [h for h in self._ready if not h._cancelled]
+            if len(ready) != len(self._ready):
+                self._ready.clear()
+                self._ready.extend(ready)
+            if not ready:
+                t = self._next_timer()
+                if t is None:
+                    return False
+                self._vtime = max(self._vtime, t._when)
+                self._due_timers_to_ready()
+                return True
+            dbt = tm.db_tasks
+            local = next((i for i, h in enumerate(ready) if self._task_of(h) not in dbt), None)
+            if local is not None:
+                h = ready[local]
+                del self._ready[local]
+            else:
+                n = len(ready)
+                timer = self._next_timer()
+                total = n + (1 if timer is not None else 0)
+                if total > 1:
+                    labels = ','.join(self._label(x) for x in ready) + ('|timer' if timer is not None else '')
+                    c = self.chooser.choose(total, labels, self.full_state())
+                else:
+                    c = 0
+                if c >= n:
+                    self._vtime = max(self._vtime, timer._when)
+                    heapq.heappop(self._scheduled)
+                    timer._scheduled = False
+                    h = timer
+                else:
+                    h = ready[c]
+                    del self._ready[c]
+            self.steps += 1
+            h._run()
+            h = None
+            if self.step_hook is not None:
+                self.step_hook()
+            return True
+
+    loop = TxLoop(chooser, reorder_ready=True, t0=t0)
+    loop.sort_ready_in_state = True   # at a choice point every ready handle is a paused session and every order is explored
+    return loop
